@@ -10,6 +10,7 @@ import (
 	"net/url"
 	"reflect"
 	"strings"
+	"testing/iotest"
 
 	"github.com/gookit/rux"
 	"github.com/gookit/rux/pkg/render"
@@ -119,7 +120,11 @@ func renderHelper(s *Summary, c *renderCase, v any) {
 		case "Blob":
 			cx.Blob(c.Status, "image/custom", asBytes(v))
 		case "Stream":
-			cx.Stream(c.Status, "image/custom", bytes.NewReader(asBytes(v)))
+			if c.Status%2 == 0 {
+				cx.Stream(c.Status, "image/custom", bytes.NewReader(asBytes(v)))
+			} else { // a reader that hands out its last chunk together with io.EOF (like net/http bodies)
+				cx.Stream(c.Status, "image/custom", iotest.DataErrReader(bytes.NewReader(asBytes(v))))
+			}
 		case "NoContent":
 			cx.NoContent()
 		case "Redirect":
